@@ -181,7 +181,7 @@ int main(int argc, char **argv){
     case 'S': { CUR_PP = NULL; int r = PSTART(ST); install_hooks(); out8('S'); out8(r); } break;
     case 'T': ST->state = rd32(); break;
     case 'I': { unsigned i = rd8(); long long v = rd64(); shim_set_int(i, v); } break;
-    case 'B': { unsigned i = rd8(); int n = rd32(); shim_set_buf(i, IN + INP, n); INP += n; } break;
+    case 'B': { unsigned i = rd8(); int n = rd32(); shim_set_buf(i, IN + INP, n); if (n > 0) INP += n; } break;   /* n < 0: the NULL representation of an empty heap string */
     case 'F': {
       int n = rd32(); int off0 = rd32();
       unsigned char *buf = malloc(n ? n : 1); memcpy(buf, IN + INP, n); INP += n;
@@ -319,8 +319,8 @@ def gen_shim(acc, sentinels=None):
         if out.type == T.STR:
             term = "((unsigned char*)ST->c.%s)[n] = 0;" % nm if out.str_null else ""
             if dyn:
-                o.append("  case %d: if (!ST->c.%s) ST->c.%s = malloc(%d); memcpy(ST->c.%s, p, n); %s ST->%s_counter = n; break;" % (
-                    i, nm, nm, out.str_size, nm, term, nm))
+                o.append("  case %d: if (n < 0){ free(ST->c.%s); ST->c.%s = NULL; ST->%s_counter = 0; break; } if (!ST->c.%s) ST->c.%s = malloc(%d); memcpy(ST->c.%s, p, n); %s ST->%s_counter = n; break;" % (
+                    i, nm, nm, nm, nm, nm, out.str_size, nm, term, nm))
             else:
                 o.append("  case %d: memcpy(ST->c.%s, p, n); %s ST->%s_counter = n; break;" % (i, nm, term, nm))
         elif out.type == T.RAW:
@@ -366,6 +366,8 @@ class CProg:
                      ["YIELD_" + x for x in acc.dctx.yield_codes]
         PD, PF = N.ProgramData, N.ProgramFlag
         self.dyn = PD.do(PF.ALLOCATE_STR_SPACE_DYNAMIC)
+        self.on_demand = PD.do(PF.ALLOCATE_STR_SPACE_DYNAMIC_ON_DEMAND)
+        self.delete_frees = PD.do(PF.DELETE_STRING_FREE_MEMORY)
         self.indirect = PD.do(PF.INDIRECT_START_PTR)
         self.eof = PD.do(PF.EOF_SUPPORT)
         self.dir = tempfile.mkdtemp(prefix="nvc", dir=SCRATCH)
@@ -406,12 +408,23 @@ class CProg:
     def op_state(self, idx):
         return b"T" + struct.pack("<i", idx)
 
-    def op_data(self, data):
+    def nullable_strings(self):
+        """heap strings for which NULL (with length 0) is a state the generated code itself produces: allocated on demand, and either
+        without a default value or freed by delete"""
+        PD, PF = N.ProgramData, N.ProgramFlag
+        if not self.on_demand:
+            return []
+        return [nm for nm in self.names if self.spec[nm].type == T.STR and (self.spec[nm].default_value is None or self.delete_frees)]
+
+    def op_data(self, data, null_empty=False):
         out = []
+        nullable = self.nullable_strings() if null_empty else []
         for i, nm in enumerate(self.names):
             o = self.spec[nm]
             v = data[nm]
-            if o.type in (T.STR, T.RAW):
+            if o.type == T.STR and len(v) == 0 and nm in nullable:
+                out.append(b"B" + struct.pack("<Bi", i, -1))
+            elif o.type in (T.STR, T.RAW):
                 out.append(b"B" + struct.pack("<Bi", i, len(v)) + v)
             else:
                 out.append(b"I" + struct.pack("<BQ", i, v & 0xFFFFFFFFFFFFFFFF))
